@@ -201,6 +201,25 @@ theorem C36_totals (r : Int) (hr : 0 < r) (data : List Raw) (nc : Nat) (hnc : 0 
   · rw [h1, sum_lengths, runs_flatten]
   · rw [h2, sum_sums, runs_flatten]
 
+/-- **C36, overall minimum and maximum**: the least sample of the min aggregate is the least
+    non-NaN raw value, the greatest sample of the max aggregate the greatest -/
+theorem C36_minmax (r : Int) (hr : 0 < r) (data : List Raw) (nc : Nat) (hnc : 0 < nc) (ok : RawOK data) :
+    ∃ chunks, downsampleRaw data r nc = some chunks ∧
+      ((chunks.flatMap (·.min)).map (·.2)).min? = ((dropNaN data).map (·.2)).min? ∧
+      ((chunks.flatMap (·.max)).map (·.2)).max? = ((dropNaN data).map (·.2)).max? := by
+  obtain ⟨chunks, hc, _, _, h3, h4⟩ := C36_values r hr data nc hnc ok
+  refine ⟨chunks, hc, ?_, ?_⟩
+  · apply min?_eq_of_foldl_all
+    intro M
+    have := foldl_min_groups (runs r (dropNaN data)) ((chunks.flatMap (·.min)).map (·.2)) M
+      (by simpa [List.map_map, Function.comp_def] using h3)
+    rw [this, runs_flatten]
+  · apply max?_eq_of_foldl_all
+    intro M
+    have := foldl_max_groups (runs r (dropNaN data)) ((chunks.flatMap (·.max)).map (·.2)) M
+      (by simpa [List.map_map, Function.comp_def] using h4)
+    rw [this, runs_flatten]
+
 /-- what `floatBatch_shape` says about a chunk `c` made from batch `b` -/
 theorem chunk_shape {r : Int} (hr : 0 < r) {nc : Nat} {data : List Raw} (ok : RawOK data)
     (hflat : (batchesOf r nc data).flatten = dropNaN data) (hne : ∀ b ∈ batchesOf r nc data, b ≠ [])
@@ -369,6 +388,21 @@ theorem C36_wellformed (r : Int) (hr : 0 < r) (data : List Raw) (nc : Nat) (hnc 
     obtain ⟨p, hp, rfl⟩ := List.mem_map.mp ht
     obtain ⟨c, hcm, hpc⟩ := List.mem_flatMap.mp hp
     exact hrange c hcm p.1 (List.mem_map.mpr ⟨p, hpc, rfl⟩)
+
+/-- int64: for timestamps and resolutions below 2^62 every intermediate value of `currentWindow`
+    (and `lastT + 1` in the readers) stays inside int64, so the `Int` model and the Go code agree -/
+theorem C36_no_overflow (t r : Int) (ht : 0 ≤ t) (ht' : t < 2 ^ 62) (hr : 0 < r) (hr' : r < 2 ^ 62) :
+    0 ≤ t % r ∧ 0 ≤ t - t % r ∧ t - t % r + r ≤ maxInt64 ∧ 0 ≤ currentWindow t r ∧ currentWindow t r < maxInt64 ∧
+      t + 1 ≤ maxInt64 := by
+  have h1 := Int.emod_nonneg t (show r ≠ 0 by omega)
+  have h2 := Int.emod_lt_of_pos t hr
+  have h3 : t % r ≤ t := by
+    have h4 := Int.emod_add_mul_ediv t r
+    have h5 : 0 ≤ r * (t / r) := Int.mul_nonneg (by omega) (Int.ediv_nonneg ht (by omega))
+    omega
+  have hcw := currentWindow_of_nonneg (r := r) ht
+  have hm : maxInt64 = 2 ^ 63 - 1 := maxInt64_eq
+  refine ⟨h1, by omega, by omega, by omega, by omega, by omega⟩
 
 /-! ### full strength: all strictly increasing series, timestamps before 1970 included -/
 
